@@ -109,6 +109,12 @@ def analyse(mod, run, label, fallbacks=CONFIRMED_FALLBACKS, overrides=FAIL_OVERR
                 run.fail(Finding("R5-result-discarded", fn.name, c, "call", "result of fallible %s is discarded at %s: an allocation failure inside it is reported as success" % (c, loc(i)), loc=loc(i)))
             else:
                 run.fail(Finding("R5-result-masked", fn.name, c, "call", "result of fallible %s (at %s) only flows into arithmetic and is never compared with its failure value: the failure is masked" % (c, loc(i)), loc=loc(i)))
+        # ---- R8 ----
+        for (c, st, guarded) in alloc.realloc_into_source(eng, fn):
+            run.r8 = getattr(run, "r8", 0) + 1
+            run.check(guarded, "R8-realloc-result-tested-before-it-replaces-the-old-pointer", {"fn": fn.name, "realloc": loc(c)},
+                      Finding("R8-realloc-overwrites-its-source", fn.name, "realloc", "store",
+                              "%s stores the result of realloc() into the location its argument came from before testing it: when realloc fails the old block is leaked and the object holds NULL" % fn.name, loc=loc(st) if st is not None else loc(c)))
         # ---- R6 ----
         for (st, L, ok) in alloc.owned_field_overwrites(eng, fn):
             run.check(ok, "R6-old-block-released", {"fn": fn.name, "field": "param%d+%d" % (L[0][1], L[1]), "at": loc(st)},
@@ -123,7 +129,7 @@ def controls(run):
     analyse(m, probe, "control", fallbacks={}, overrides={})
     got = {(f.rule, f.function) for f in probe.findings}
     for rule, fn in [("R1-null-deref", "ctl_unchecked"), ("R3-leak", "ctl_leak_on_error"), ("R2-failure-not-reported", "ctl_fallback"),
-                     ("R5-result-discarded", "ctl_discard"), ("R5-result-masked", "ctl_masked"), ("R6-owned-field-overwritten", "ctl_overwrite"), ("R7-object-half-updated-on-failure", "ctl_half_update")]:
+                     ("R5-result-discarded", "ctl_discard"), ("R5-result-masked", "ctl_masked"), ("R6-owned-field-overwritten", "ctl_overwrite"), ("R8-realloc-overwrites-its-source", "ctl_realloc_in_place"), ("R7-object-half-updated-on-failure", "ctl_half_update")]:
         run.control("%s/%s" % (rule, fn), (rule, fn) in got)
     clean = [(f.rule, f.function) for f in probe.findings if f.function.startswith("ctl_clean") or f.function in ("grow", "bag_free")]
     run.control("silent on clean controls %s" % clean, not clean)
@@ -140,6 +146,7 @@ def run(tier):
                     "fallible": sorted(eng.fallible), "purely_fallible": sorted(eng.pure_fallible)}
         run.floor("allocation sites (%s)" % cfg, nsites, 50)
         run.floor("direct malloc/calloc/realloc calls (%s)" % cfg, ndirect, 38)
+        run.floor("realloc calls growing a block held in an object (%s)" % cfg, getattr(run, "r8", 0), 2); run.r8 = 0
     controls(run)
     run.coverage.update({"configurations": per, "confirmed_fallbacks": {"%s/%s" % k: v for k, v in CONFIRMED_FALLBACKS.items()},
                          "failure_value_overrides": FAIL_OVERRIDE,
@@ -150,5 +157,6 @@ def run(tier):
         "is NULL-tested before any dereference (including callees that dereference the parameter); R2 the failure edge reaches only "
         "returns of the function's failure value (or a hand-confirmed correct fallback); R3 every owned block is freed, returned or "
         "stored into caller-visible memory on every exit; R5 no caller discards the status of a fallible callee; R6 an owning field is "
-        "not overwritten while its previous block is still live. This covers the k-th failure of every allocation for every k without "
+        "not overwritten while its previous block is still live; R7 the long-lived object is not modified before a failure is reported; R8 the "
+        "result of realloc replaces the pointer it grew only after it has been tested. This covers the k-th failure of every allocation for every k without "
         "making malloc fail.")
